@@ -72,6 +72,11 @@ class ExprMixin(object):
         if isinstance(a, PyTuple) and isinstance(b, PyTuple) and len(a.items) == len(b.items):
             return PyTuple([self.merge_values(c, x, y) for x, y in zip(a.items, b.items)],
                            fields=a.fields if a.fields == b.fields else None)
+        if (isinstance(a, PyTuple) or (isinstance(a, PyObj) and isinstance(a.o, tuple) and a.o and a.o[0] == 'tuplechoice')) and \
+                (isinstance(b, PyTuple) or (isinstance(b, PyObj) and isinstance(b.o, tuple) and b.o and b.o[0] == 'tuplechoice')):
+            # constant tuples of different shapes chosen by a condition (class attributes overridden in subclasses):
+            # only membership tests are supported on the result
+            return PyObj(('tuplechoice', c, a, b))
         if isinstance(a, GList) and isinstance(b, GList):
             return self.merge_glists(c, a, b)
         if isinstance(a, PyObj) and isinstance(b, PyObj) and a.o is b.o:
@@ -404,6 +409,8 @@ class ExprMixin(object):
             return Or(*[And(en.guard, same(en.val)) for en in container.entries])
         if isinstance(container, PyObj):
             o = container.o
+            if isinstance(o, tuple) and o and o[0] == 'tuplechoice':
+                return z3.If(o[1], self.contains(st, o[2], item), self.contains(st, o[3], item))
             if isinstance(o, tuple) and len(o) == 2 and o[0] in (map, zip, enumerate, reversed, range, iter, filter):
                 items = self.iter_items(st, container)
                 if items is None:
@@ -441,8 +448,22 @@ class ExprMixin(object):
                             self.frames.pop()
                         return self.contains(st, inner, item)
                 raise EngineError('`in` on object %r' % (h,))
-            if h is not None and h.kind in ('list', 'tuple'):
-                raise EngineError('`in` on symbolic list needs a contract-level treatment')
+            if h is not None and h.kind in ('list', 'tuple') and not h.opt:
+                # membership in a symbolic list: an uninterpreted predicate of (elements, offset, length, item) - the same list
+                # state and item give the same answer - constrained only by: an empty list contains nothing, and an item equal
+                # (by value, for scalars) to the first or last element is contained.  Sound over-approximation otherwise.
+                r = Val.r(container.t)
+                elems = z3.Select(self.harr(st, '$ELEM'), r)
+                off = self.list_off(st, r)
+                n = self.list_len(st, r)
+                uf = self.get_uf('list_contains', elems.sort(), IntS, IntS, Val, z3.BoolSort())
+                m = uf(elems, off, n, item.t)
+                self.assume(st, z3.Implies(n <= 0, Not(m)))
+                scalar = Or(Val.is_S(item.t), Val.is_I(item.t), Val.is_N(item.t))
+                self.assume(st, z3.Implies(And(n > 0, scalar, self.list_elem(st, r, z3.IntVal(0)) == item.t), m))
+                self.assume(st, z3.Implies(And(n > 0, scalar, self.list_elem(st, r, n - 1) == item.t), m))
+                self.trust('`x in <symbolic list>`: uninterpreted predicate (empty list: False; equal to first / last element: True)')
+                return m
         raise EngineError('`in` on value without static type: %r' % (container,))
 
     # ------------------------------------------------------------------ arithmetic / strings
